@@ -1,5 +1,6 @@
 import Originium.Model.DBProofs
 import Originium.Model.LevelTie
+import Originium.Model.DBTie
 /-! # C02 — Close and reopen preserve the committed state; the store stays writable -/
 namespace Props
 open Key VKey Table Levels Compact LSM DB
@@ -173,8 +174,19 @@ theorem C02_code_fresh_table_name (idxs : List Int) :
 /-- non-vacuity: handles listed as a recovery lists them (`0-10` before `0-2`) -/
 example : GenLevel.maxLevelIdx [0, 1, 10, 11, 2, 9] + 1 = 12 := by decide
 
+
+/-- the Go code itself (`DB.Close`, translated from /repo/db.go on every run): Close refuses new commits, waits for the
+    commit in flight, tells the flusher to stop and waits until it has drained its queue, and only then freezes the active
+    memtable and flushes it (an empty one: its wal is deleted) — nothing committed stays behind in memory -/
+theorem C02_code_close (size : Nat) (df : Bool) :
+    GenDB.close size df [] =
+      ["state := Closed", "writeLock.Lock", "defer writeLock.Unlock", "closeC <- signal", "<-closed", "memtable.freeze",
+        if 0 < size then "flushImmutable memtable" else "wal.Delete"] :=
+  DBTie.close_table size df
+
 #print axioms C02_reopen
 #print axioms C02_reopen_reads
 #print axioms C02_still_writable
 #print axioms C02_code_fresh_table_name
+#print axioms C02_code_close
 end Props
